@@ -1017,6 +1017,8 @@ class LieTensor(Tensor):
             >>> x.lview(-1).lshape
             torch.Size([4])
         '''
+        if len(shape) == 1 and isinstance(shape[0], (tuple, list)): # torch.Size is a tuple
+            shape = tuple(shape[0])
         return self.view(*shape+self.ltype.dimension)
 
     def Exp(self) -> LieTensor:
